@@ -64,6 +64,7 @@ type authHoney struct {
 	keyIDs     map[string]string // key -> id returned by /1/auth
 	decodeErrs []string
 	other      []string // any other request (method + path)
+	discard    bool     // do not decode batches
 }
 
 func authNewHoney(keyIDs map[string]string) *authHoney {
@@ -74,7 +75,9 @@ func authNewHoney(keyIDs map[string]string) *authHoney {
 	mux.HandleFunc("/", func(w http.ResponseWriter, r *http.Request) {
 		io.Copy(io.Discard, r.Body)
 		h.mu.Lock()
-		h.other = append(h.other, r.Method+" "+r.URL.Path)
+		if len(h.other) < 1000 {
+			h.other = append(h.other, r.Method+" "+r.URL.Path)
+		}
 		h.mu.Unlock()
 		w.WriteHeader(http.StatusNotFound)
 	})
@@ -101,6 +104,14 @@ func (h *authHoney) handleAuth(w http.ResponseWriter, r *http.Request) {
 var authZstdDec, _ = zstd.NewReader(nil, zstd.WithDecoderConcurrency(1))
 
 func (h *authHoney) handleBatch(w http.ResponseWriter, r *http.Request) {
+	if h.discard {
+		// C28: whatever refinery forwards or proxies here is hostile by design;
+		// the fake upstream must not interpret it
+		io.Copy(io.Discard, r.Body)
+		w.Header().Set("Content-Type", "application/json")
+		w.Write([]byte("[]"))
+		return
+	}
 	body, _ := io.ReadAll(r.Body)
 	b := authBatch{Team: r.Header.Get("X-Honeycomb-Team"), Dataset: strings.TrimPrefix(r.URL.Path, "/1/batch/")}
 	var derr string
@@ -387,6 +398,8 @@ type authSUTOpts struct {
 	OnError func(authLogLine)
 	// Peer also starts a second Router of type peer on PeerListenAddr.
 	Peer bool
+	// HoneyDiscard makes the fake Honeycomb swallow batches without decoding them.
+	HoneyDiscard bool
 }
 
 type authSUT struct {
@@ -449,6 +462,7 @@ func authStartSUTOnce(o authSUTOpts) (*authSUT, error) {
 		Nonce:    fmt.Sprintf("verif-%d-%d", os.Getpid(), authNonceCtr.Add(1)),
 	}
 	s.Honey = authNewHoney(o.KeyIDs)
+	s.Honey.discard = o.HoneyDiscard
 	ok := false
 	defer func() {
 		if !ok {
